@@ -76,19 +76,30 @@ def h_dest(ctx, M, NMAX, ck="crc32", hiccup=False):
         what = ctx.pick(f"r{r}", opts)
         if what == "LATE":
             k = late.pop(0)
+            # the late PDU may be handed over in the very call in which the check timer has expired: it is
+            # received first, then the timer is looked at
+            dtl = ctx.int(f"dtl{r}", 0, 2)
+            w.tick(dtl)
             o = sc.grid_fd(k)
-            hdst.end_if_other_property(ctx, o)
+            if not (hiccup and isinstance(o.exc, OSError)):
+                hdst.end_if_other_property(ctx, o)
             have.add(k)
             complete = len(have) == M
-            ctx.prop("late_data_alone_changes_nothing_visible",
-                     not any(e[0] == "finished" for e in o.ind) and not o.faults,
-                     lambda: {"sig": "completion or fault outside a check-timer expiry"})
-            continue
-        o = sc.tick(f"dt{r}")
+            if not (Clock.now - t_start >= 1):
+                ctx.prop("late_data_alone_changes_nothing_visible",
+                         not any(e[0] == "finished" for e in o.ind) and not o.faults,
+                         lambda: {"sig": "completion or fault outside a check-timer expiry"})
+                continue
+            ctx.covered("late_data_with_expiry")
+        else:
+            o = None
+        if o is None:
+            o = sc.tick(f"dt{r}")
         if hiccup and isinstance(o.exc, OSError):
             # the filestore's error surfaces from this call; the expiry has not been dealt with: it is
             # neither counted nor lost (the timer is still expired at the next call)
-            ctx.prop("hiccup_call_decides_nothing", not o.faults and not o.ind and not o.pdus,
+            ctx.prop("hiccup_call_decides_nothing",
+                     not o.faults and not any(e[0] == "finished" for e in o.ind) and not o.pdus,
                      lambda: {"sig": "fault / completion in the call in which the filestore failed"})
             hic["pending"] = True
             continue
